@@ -4,7 +4,7 @@
   entries.  Assembles the stage lemmas (split, auth difference, control set, Kahn, mainline sort, application of
   the unconflicted state).  Core only.
 -/
-import VProofs.StateResWF
+import VProofs.StateResFlow
 namespace V.StateRes
 open V Json GoJson Auth List
 
@@ -36,20 +36,6 @@ theorem createEvOf_congr {U : Event → Prop} (hC : OneCreate U) {u u' a a' c c'
     (h1 : SameSet u u') (h2 : SameSet a a') (h3 : SameSet c c') : createEvOf u a c = createEvOf u' a' c' := by
   unfold createEvOf
   rw [getCreateEvent_congr hC hu hu' h1, getCreateEvent_congr hC ha ha' h2, getCreateEvent_congr hC hc hc' h3]
-
-/-- what the two preparations have in common -/
-structure PrepSim (U : Event → Prop) (p p' : Prep) : Prop where
-  inU : (∀ x ∈ p.unconflicted, U x) ∧ (∀ x ∈ p'.unconflicted, U x) ∧ (∀ x ∈ p.controlEvents, U x) ∧ (∀ x ∈ p'.controlEvents, U x)
-  conflicted : SameSet p.conflicted p'.conflicted
-  unconflicted : p.unconflicted ~ p'.unconflicted
-  slots : DistinctSlots p.unconflicted
-  authMap : MapEq p.authMap p'.authMap
-  createEv : p.createEv = p'.createEv
-  authDiff : SameSet p.authDiff p'.authDiff
-  controlIDs : SameSet p.controlIDs p'.controlIDs
-  controlEvents : SameSet p.controlEvents p'.controlEvents
-  others : p.others ~ p'.others
-  othersNodup : IdNodup p.others
 
 section prep
 variable {U : Event → Prop} (hU : EvId U) (hC : OneCreate U) (algo : Nat)
@@ -85,83 +71,20 @@ theorem prepOf_sim : PrepSim U (prepOf algo sets auth) (prepOf algo sets' auth')
   have hamU : ∀ x ∈ eventMapFromEvents auth, U x := fun x hx => haU x (mem_eventMap hx)
   have hamU' : ∀ x ∈ eventMapFromEvents auth', U x := fun x hx => haU' x (mem_eventMap hx)
   have ham : MapEq (eventMapFromEvents auth) (eventMapFromEvents auth') := eventMap_mapEq hU haU haU' ha
-  have hcm : MapEq (eventMapFromEvents (splitConflictedUnconflicted false sets).1)
-      (eventMapFromEvents (splitConflictedUnconflicted false sets').1) := eventMap_mapEq hU hcU hcU' hc
   -- auth difference
   have had := authDifferenceNew_congr hU algo hsU hsU' hamU hamU' hcU hcU' ham hc hs.sim
-  have hfull := hc.append had
-  have hfullU : ∀ x ∈ (splitConflictedUnconflicted false sets).1 ++
-      authDifferenceNew algo (eventMapFromEvents auth) (splitConflictedUnconflicted false sets).1 sets, U x := by
+  have hdU : ∀ x ∈ authDifferenceNew algo (eventMapFromEvents auth) (splitConflictedUnconflicted false sets).1 sets, U x := by
     intro x hx
-    rcases mem_fullConflicted hx with h | h
-    · exact hflU x h
-    · exact haU x h
-  have hfullU' : ∀ x ∈ (splitConflictedUnconflicted false sets').1 ++
-      authDifferenceNew algo (eventMapFromEvents auth') (splitConflictedUnconflicted false sets').1 sets', U x := by
+    rcases mem_authDifferenceNew_sub hx with h | h
+    · exact hamU x h
+    · exact hcU x h
+  have hdU' : ∀ x ∈ authDifferenceNew algo (eventMapFromEvents auth') (splitConflictedUnconflicted false sets').1 sets', U x := by
     intro x hx
-    rcases mem_fullConflicted hx with h | h
-    · exact hflU' x h
-    · exact haU' x h
-  have huid : SameSet ((splitConflictedUnconflicted false sets).2.map (·.eventID))
-      ((splitConflictedUnconflicted false sets').2.map (·.eventID)) := hu.map _
-  -- roots and control IDs
-  have hroots : SameSet (rootsOf ((splitConflictedUnconflicted false sets).2.map (·.eventID))
-        ((splitConflictedUnconflicted false sets).1 ++ authDifferenceNew algo (eventMapFromEvents auth) (splitConflictedUnconflicted false sets).1 sets))
-      (rootsOf ((splitConflictedUnconflicted false sets').2.map (·.eventID))
-        ((splitConflictedUnconflicted false sets').1 ++ authDifferenceNew algo (eventMapFromEvents auth') (splitConflictedUnconflicted false sets').1 sets')) := by
-    unfold rootsOf
-    intro x
-    simp only [List.mem_filter, hfull x, huid.contains]
-  have hcids : SameSet
-      (controlIDsOf (eventMapFromEvents (splitConflictedUnconflicted false sets).1)
-        (rootsOf ((splitConflictedUnconflicted false sets).2.map (·.eventID))
-          ((splitConflictedUnconflicted false sets).1 ++ authDifferenceNew algo (eventMapFromEvents auth) (splitConflictedUnconflicted false sets).1 sets)))
-      (controlIDsOf (eventMapFromEvents (splitConflictedUnconflicted false sets').1)
-        (rootsOf ((splitConflictedUnconflicted false sets').2.map (·.eventID))
-          ((splitConflictedUnconflicted false sets').1 ++ authDifferenceNew algo (eventMapFromEvents auth') (splitConflictedUnconflicted false sets').1 sets'))) := by
-    unfold controlIDsOf
-    rw [controlClosure_mapEq hcm, hcm.1]
-    apply controlClosure_sameSet _ _ hroots
-    intro id
-    rw [eventMap_ids, eventMap_ids]
-    exact (hroots.map _) id
-  -- lookups
-  have hlook : ∀ id, lookupAny ((splitConflictedUnconflicted false sets).1 ++ authDifferenceNew algo (eventMapFromEvents auth) (splitConflictedUnconflicted false sets).1 sets)
-        (eventMapFromEvents (splitConflictedUnconflicted false sets).1) id
-      = lookupAny ((splitConflictedUnconflicted false sets').1 ++ authDifferenceNew algo (eventMapFromEvents auth') (splitConflictedUnconflicted false sets').1 sets')
-        (eventMapFromEvents (splitConflictedUnconflicted false sets').1) id := by
-    intro id
-    unfold lookupAny
-    rw [findByID_congr hU hfullU hfullU' hfull id, hcm.2 id]
-  have hce : SameSet (prepOf algo sets auth).controlEvents (prepOf algo sets' auth').controlEvents := by
-    simp only [prepOf]
-    intro x
-    simp only [List.mem_filterMap, hlook]
-    constructor
-    · rintro ⟨id, hid, hx⟩; exact ⟨id, (hcids id).mp hid, hx⟩
-    · rintro ⟨id, hid, hx⟩; exact ⟨id, (hcids id).mpr hid, hx⟩
-  have hot : SameSet (prepOf algo sets auth).others (prepOf algo sets' auth').others := by
-    simp only [prepOf, othersOf]
-    intro x
-    simp only [List.mem_filter, huid.contains, hcids.contains]
-    have := (eventMap_sameSet (hU.mono hfullU)).trans (hfull.trans (eventMap_sameSet (hU.mono hfullU')).symm)
-    rw [this x]
-  have hotn : IdNodup (prepOf algo sets auth).others := by
-    simp only [prepOf, othersOf]; exact (eventMap_idNodup _).filter _
-  have hotn' : IdNodup (prepOf algo sets' auth').others := by
-    simp only [prepOf, othersOf]; exact (eventMap_idNodup _).filter _
-  have hsub := prepOf_sub algo sets auth
-  have hsub' := prepOf_sub algo sets' auth'
-  refine ⟨⟨huU, huU', ?_, ?_⟩, hc, hup, unconflicted_distinctSlots sets, ham, ?_, had, hcids, hce, hot.perm hotn.nodup hotn'.nodup, hotn⟩
-  · intro x hx
-    rcases hsub.control x hx with h | h
-    · exact hflU x h
-    · exact haU x h
-  · intro x hx
-    rcases hsub'.control x hx with h | h
-    · exact hflU' x h
-    · exact haU' x h
-  · exact createEvOf_congr hC huU huU' haU haU' hcU hcU' hu ha hc
+    rcases mem_authDifferenceNew_sub hx with h | h
+    · exact hamU' x h
+    · exact hcU' x h
+  rw [prepOf_eq_mkPrep, prepOf_eq_mkPrep, createEvOf_congr hC huU huU' haU haU' hcU hcU' hu ha hc]
+  exact mkPrep_sim hU _ hcU hcU' huU huU' hdU hdU' hc hup (unconflicted_distinctSlots sets) ham had
 
 end prep
 
@@ -257,5 +180,32 @@ theorem stages_perm_invariant {U : Event → Prop} (hU : EvId U) (hC : OneCreate
     · rw [controlOrderOf_sim hU algo hp]
     · rw [othersOrderOf_sim hU algo hp]
     · exact (stateS4_sim hU algo hp rej).map _
+
+/-- **The order in which the Go maps are ranged over is irrelevant.**  Replace the conflicted list, the unconflicted list, the
+    auth map and the auth difference computed by the model (first-insertion order) by ANY lists holding the same events
+    (`c'`, `d'` the same sets, `u'` a permutation, `am'` answering lookups alike): the resolved state is a permutation of
+    the model's. -/
+theorem finalState_internal_order_irrelevant {U : Event → Prop} (hU : EvId U) (algo : Nat)
+    {sets : List (List Event)} {auth : List Event} (hsU : ∀ s ∈ sets, ∀ x ∈ s, U x) (haU : ∀ x ∈ auth, U x) (rej : List ID)
+    {c' u' am' d' : List Event} (hcU' : ∀ x ∈ c', U x) (hdU' : ∀ x ∈ d', U x)
+    (hc : SameSet (prepOf algo sets auth).conflicted c') (hu : (prepOf algo sets auth).unconflicted ~ u')
+    (ham : MapEq (prepOf algo sets auth).authMap am') (hd : SameSet (prepOf algo sets auth).authDiff d') :
+    stateS4 algo (prepOf algo sets auth) rej ~ stateS4 algo (mkPrep c' u' am' (prepOf algo sets auth).createEv d') rej := by
+  have hflU : ∀ x ∈ sets.flatten, U x := by
+    intro x hx; obtain ⟨s0, hs0, hx0⟩ := List.mem_flatten.mp hx; exact hsU s0 hs0 x hx0
+  have hcU : ∀ x ∈ (splitConflictedUnconflicted false sets).1, U x :=
+    fun x hx => hflU x (split_sub false sets (Or.inl hx)).1
+  have huU : ∀ x ∈ (splitConflictedUnconflicted false sets).2, U x :=
+    fun x hx => hflU x (split_sub false sets (Or.inr hx)).1
+  have hdU : ∀ x ∈ authDifferenceNew algo (eventMapFromEvents auth) (splitConflictedUnconflicted false sets).1 sets, U x := by
+    intro x hx
+    rcases mem_authDifferenceNew_sub hx with h | h
+    · exact haU x (mem_eventMap h)
+    · exact hcU x h
+  have hp : PrepSim U (prepOf algo sets auth) (mkPrep c' u' am' (prepOf algo sets auth).createEv d') := by
+    rw [prepOf_eq_mkPrep] at hc hu ham hd ⊢
+    exact mkPrep_sim hU _ hcU hcU' huU (fun x hx => huU x (hu.mem_iff.mpr hx)) hdU hdU' hc hu
+      (unconflicted_distinctSlots sets) ham hd
+  exact stateS4_sim hU algo hp rej
 
 end V.StateRes
